@@ -11,6 +11,7 @@
 import Fadl.Model.Simplify
 import Fadl.Scope
 import Fadl.Lemmas.Rename
+import Fadl.Sem
 namespace Fadl
 
 def stackKeys (st : SStack) : List String := st.flatMap (fun f => f.map (·.1))
@@ -80,7 +81,7 @@ def simpCk : Nat → SStack → Nat → Expr → Except Err (Expr × Nat)
         | .call (.name "First") (first :: _) _ _ =>
           let x := argName c2
           let select := makeSelect first (.lam [x] (.sub (.name x) s'))
-          if !(fv s').contains x && keyFree st v' && keyFree st s' then
+          if !(fv s').contains x && keyFree st (fcall "First" [select]) then
             simpCk fuel st (c2 + 1) (fcall "First" [select])
           else .error (sideErr "subscript pushed under First")
         | .call (.name "First") [] _ _ => .error (.internal "IndexError")
@@ -160,6 +161,7 @@ def simpCk : Nat → SStack → Nat → Expr → Except Err (Expr × Nat)
         let (ks', c3) ← simpLCk fuel st c2 kwv
         let headOK := match f with
           | .name n => !(stackKeys st).contains n
+          | .attr _ m => !(opNames.contains m) || builtinOps.contains m
           | _ => true
         if headOK then pure (.call f' as' kwn ks', c3) else .error (sideErr "a substituted name in callee position")
 def simpLCk : Nat → SStack → Nat → List Expr → Except Err (List Expr × Nat)
